@@ -22,6 +22,12 @@
 (*             = "any" : any entry, nothing re-validated (an eviction that *)
 (*                      ignores dependants - used to show the invariants   *)
 (*                      are not vacuous)                                   *)
+(*   FeeOnRemainder = TRUE : a fluff submission that contains already      *)
+(*                      pooled transactions is deaggregated FIRST and the  *)
+(*                      fee / kernel-variant / capacity tests are applied  *)
+(*                      to the remainder (the entry that is admitted)      *)
+(*                  = FALSE: tests applied to the aggregate as submitted   *)
+(*                      (anti-vacuity variant; violates NoUnderpaid)       *)
 (***************************************************************************)
 EXTENDS Naturals, Integers, Sequences, FiniteSets, TLC
 
@@ -35,6 +41,10 @@ CONSTANTS Atoms,          \* [1..N -> [ins, outs, fee, shift, lock, nrd]]
           MaxBlockWeight, \* global::max_block_weight()
           MineWeight,     \* PoolConfig.mineable_max_weight
           FeeFirst, EvictMode,
+          FeeOnRemainder, \* TRUE: kernel-variant / minimum-fee / capacity tests look at the transaction that is actually
+                          \* admitted and relayed (the remainder after deaggregation) - what C14 demands and what
+                          \* add_to_pool does; FALSE: they look at the transaction as submitted (careless variant:
+                          \* an under-paying tx rides in aggregated with an already pooled, well-paying one)
           ShortReorg,     \* allow a heavier but shorter fork (2 blocks replaced by 1)
           ReconcileMature, \* TRUE: re-validation after a block / reorg also demands maturity and lock height
                           \* (what C13/C14 demand); FALSE: utxo and sums only, as Pool::reconcile does
@@ -148,11 +158,12 @@ AddFluff(x, sp0, over) ==
 
 Fluff(t) ==
   IF t \in SeqToSet(txpool) THEN Rej("dup")
-  ELSE LET e == Deagg(t)
+  ELSE LET e == Deagg(t)                                   \* deaggregate_tx comes first ...
+           f == IF FeeOnRemainder THEN e ELSE TxOf(t)      \* ... so that the admission tests see the remainder
            over == Len(txpool) > MaxPool
-       IN IF \E a \in e.k : Atoms[a].nrd THEN Rej("nrd")
-          ELSE IF FeeFirst /\ Underpaid(e) THEN Rej("fee")
-          ELSE IF ~over /\ Underpaid(e) THEN Rej("fee")
+       IN IF \E a \in f.k : Atoms[a].nrd THEN Rej("nrd")
+          ELSE IF FeeFirst /\ Underpaid(f) THEN Rej("fee")
+          ELSE IF ~over /\ Underpaid(f) THEN Rej("fee")
           ELSE LET s == Screen(e, AtomsIn(txpool))
                IN IF s # "" THEN Rej(s) ELSE AddFluff(e.k, stempool, over)
 
